@@ -130,7 +130,7 @@ InterestConvertible(s, l) == l.c.isym = l.sym \/ (l.c.isym = Q /\ DirectPriced(s
 
 \* CheckMarginLevel on candidate maps (nb, nbor).  Result: "ok" | "nebal" | "noprice" | "zero"
 MarginCheck(s, nb, nbor) ==
-  LET borrowedSyms == {x \in Syms : nbor[x] # 0}
+  LET borrowedSyms == {x \in Syms : nbor[x] # 0 /\ s.cond[x].reqN # 0}   \* Prices.convert(0) needs no price
       open == OpenLoanIdx(s)
       intSyms == {s.loans[j].c.isym : j \in {k \in open : InterestOf(s, s.loans[k], s.clock) > 0}}
   IN IF \E x \in borrowedSyms : ~HasPrice(s, x) THEN "noprice"
@@ -465,8 +465,8 @@ Inv_C09_TotalFee(s) ==
 \* C10: the margin requirement, recomputed independently of MarginCheck (no interest term, no level)
 \* (a borrowed symbol that cannot be valued at all does not meet any requirement: the request must fail)
 MarginRequirementMet(s) ==
-  LET bs == {x \in Syms : s.bor[x] > 0} IN
-  /\ \A x \in {y \in bs : s.cond[y].reqN > 0} : HasPrice(s, x)
+  LET bs == {x \in Syms : s.bor[x] > 0 /\ s.cond[x].reqN > 0} IN      \* a requirement of 0 needs no valuation
+  /\ \A x \in bs : HasPrice(s, x)
   /\ (\A x \in bs \cup {y \in Syms : s.bal[y] - s.bor[y] > 0} : HasPrice(s, x)) =>
      LET RECURSIVE SU(_)
          SU(S) == IF S = {} THEN 0 ELSE LET x == CHOOSE x \in S : TRUE IN ValQ(s, x, s.bor[x]) * s.cond[x].reqN + SU(S \ {x})
